@@ -32,11 +32,24 @@ def random_weak_order(rng, n):
 def encode_ranks(rng, dense, how=None):
     """encode a dense rank vector as a list of Python numbers inducing the same weak order"""
     n = len(dense)
-    how = how or rng.choice(["int", "float", "mixed", "neg", "big", "gap", "bool", "frac", "huge", "near"])
+    how = how or rng.choice(["int", "float", "mixed", "neg", "big", "gap", "bool", "frac", "huge", "near", "unit"])
     levels = sorted(set(dense))
     if how == "bool" and len(levels) > 2:
         how = "int"
-    if how == "near":
+    if how == "unit":
+        # values inside [0, n-1] with the end points exactly 0 and n-1 and fractional values in between, several sharing an integer
+        # part (finishing times normalised to the field): NOT a permutation of 0..n-1 although min, max and distinctness look like one
+        top = n - 1
+        inner = sorted(rng.uniform(0.05, max(0.1, top - 0.05)) for _ in range(max(0, len(levels) - 2)))
+        if len(inner) >= 2 and rng.random() < 0.7:
+            inner[1] = math.floor(inner[0]) + (inner[0] - math.floor(inner[0])) * 0.5 + 0.25 if math.floor(inner[0]) + 0.75 > inner[0] else inner[1]
+            inner = sorted(set(inner))
+            while len(inner) < len(levels) - 2:
+                inner.append(inner[-1] + 1e-3)
+        seq = ([0] + inner + [top]) if len(levels) >= 2 else [0]
+        seq = sorted(seq[: len(levels)]) if len(seq) >= len(levels) else list(range(len(levels)))
+        vals = {l: (seq[k] if (k not in (0, len(levels) - 1) or rng.random() < 0.5) else float(seq[k])) for k, l in enumerate(levels)}
+    elif how == "near":
         # distinct floats a few ulps apart (0.1 + 0.2 against 0.3): different values, different places
         x = rng.choice([0.3, 0.1 + 0.2 - 2e-16, 1.0, 1234.5, -2.5e-3, 1e9])
         vals = {}
